@@ -1318,3 +1318,65 @@ M("benign-error-codec-dict-comprehension", "ALL", "", "lambda_service.py",
             "StackTrace": self.stack_trace,
         }
         return {key: value for key, value in fields.items() if value is not None}""", expect="silent")
+
+# further behaviour-preserving refactors (added with rounds 3/4): every check must stay silent
+M2("benign-done-callback-tail-helper", "ALL", "", [
+    {"file": "concurrency/executor.py", "old": """        # Check if execution should complete or suspend
+        if self.counters.should_complete():
+            self._completion_event.set()
+        else:
+            suspend_result = self.should_execution_suspend()
+            if suspend_result.should_suspend:
+                self._suspend_exception = suspend_result.exception
+                self._completion_event.set()
+""", "new": """        self._decide_after_branch_end()
+
+    def _decide_after_branch_end(self) -> None:
+        # Check if execution should complete or suspend
+        if self.counters.should_complete():
+            self._completion_event.set()
+            return
+        suspend_result = self.should_execution_suspend()
+        if suspend_result.should_suspend:
+            self._suspend_exception = suspend_result.exception
+            self._completion_event.set()
+"""}], expect="silent")
+M("benign-ancestor-walk-renamed-locals", "ALL", "", "state.py",
+  """        seen: set[str] = set()
+        current = parent_id
+        while current and current not in seen:
+            if current in self._completed_contexts or current in self._parent_done:
+                return True
+            seen.add(current)
+            parent = self._parent_of.get(current)
+            if parent is None:
+                with self._operations_lock:
+                    recorded = self.operations.get(current)
+                parent = recorded.parent_id if recorded else None
+            current = parent
+        return False""",
+  """        visited: set[str] = set()
+        node = parent_id
+        while node and node not in visited:
+            if node in self._parent_done or node in self._completed_contexts:
+                return True
+            visited.add(node)
+            up = self._parent_of.get(node)
+            if up is None:
+                with self._operations_lock:
+                    rec = self.operations.get(node)
+                up = rec.parent_id if rec is not None else None
+            node = up
+        return False""", expect="silent")
+M("benign-wfc-fail-record-via-local", "ALL", "", "operation/wait_for_condition.py",
+  "            self.state.create_checkpoint(operation_update=fail_operation)\n",
+  "            record = fail_operation\n            self.state.create_checkpoint(operation_update=record, is_sync=True)\n", expect="silent")
+M("benign-batch-item-from-dict-locals", "ALL", "", "concurrency/models.py",
+  """            result=data.get("result"),
+            error=ErrorObject.from_dict(data["error"]) if data.get("error") else None,""",
+  """            result=data.get("result", None),
+            error=(ErrorObject.from_dict(data["error"]) if data.get("error") else None),""", expect="silent")
+M("benign-reset-len-check", "ALL", "", "threading.py",
+  "            if self._waiters:\n                msg = (\n                    \"Cannot reset lock", "            if len(self._waiters) > 0:\n                msg = (\n                    \"Cannot reset lock", expect="silent")
+M("benign-close-logs-before-stop", "ALL", "", "state.py",
+  "    def close(self):\n        self.stop_checkpointing()", "    def close(self):\n        logger.debug(\"closing execution state\")\n        self.stop_checkpointing()", expect="silent")
